@@ -703,6 +703,22 @@ class CallMixin:
             return V(v.ty, v.t)
         raise Unsupported("list() of %s" % v.ty)
 
+    def bi_frozenset(self, node, env):
+        """frozenset([e0, .., en]) / frozenset((..)) of a LITERAL list/tuple of int-valued elements (ints, IntEnum
+        members): the finite set {e0..en} as a characteristic function (only membership is modelled)."""
+        if not node.args:
+            return V(TSet(TInt), z3.K(z3.IntSort(), z3.BoolVal(False)))
+        lit = node.args[0]
+        if len(node.args) != 1 or not isinstance(lit, (ast.List, ast.Tuple)):
+            raise Unsupported("frozenset() of a non-literal")
+        s = z3.K(z3.IntSort(), z3.BoolVal(False))
+        for e in lit.elts:
+            v = self.evalv(e, env)
+            if not (sym.is_num(v) or isinstance(v.ty, TEnum)):
+                raise Unsupported("frozenset element of type %s" % v.ty)
+            s = z3.Store(s, sym.as_int(v), z3.BoolVal(True))
+        return V(TSet(TInt), s)
+
     def bi_divmod(self, node, env):
         a, b = self.evalv(node.args[0], env), self.evalv(node.args[1], env)
         q = self.binop(ast.FloorDiv(), a, b, node)
